@@ -60,6 +60,8 @@ TabQ(arr) == [i \in 1..Len(arr) |-> arr[i] = "On"]
 Tag(c, t) == IF c THEN {t} ELSE {}
 \* evaluated at every call that is not a send: an owed send did not happen; keys survived the tablet switch
 Owed == Tag(must.on, IF must.kind = "chord" THEN "C11-chord-missing" ELSE "C10-send-missing-" \o must.kind)
+        \* after a tablet-mode change the loop is to behave as a newly started one: a new loop would write exactly the wanted chord
+        \cup Tag(must.on /\ must.kind = "chord" /\ afterTab, "C12-chord-not-as-fresh-after-tablet-mode")
         \cup Tag(~must.on /\ must.on2, "C12-not-fresh-after-tablet-mode")
         \cup Tag(onJust /\ held # {}, "C12-not-released-at-tablet-on")
 AfterFailure == Tag(failed, "C20-call-after-failure")
@@ -225,6 +227,7 @@ ConsumeLine ==
                              ELSE IF must.kind = "chord" THEN {IF chordKeyHeld THEN "C11-chord-touches-held-key" ELSE "C11-chord-content"}
                              ELSE {"C10-wrong-payload-" \o must.kind})
                        \cup Tag(r.evs # <<>> /\ must.kind = "step" /\ afterTab /\ r.evs # must.evs2, "C12-not-fresh-after-tablet-mode")
+                       \cup Tag(r.evs # <<>> /\ must.on /\ must.kind = "chord" /\ afterTab /\ r.evs # must.evs, "C12-chord-not-as-fresh-after-tablet-mode")
                        \cup Tag(isChord /\ HeldAfter(held, r.evs) # held, "C11-chord-not-transient")
                        \* C12: a repeat chord although a tablet-mode switch was read since the last repeat was armed ("resumes as from a fresh start")
                        \cup Tag(r.evs # <<>> /\ tabCleared /\ prevTimeout /\ ~must.on, "C12-repeat-survives-tablet-switch")
